@@ -10,6 +10,9 @@ import (
 
 const maxInlineDepth = 12
 
+// pureField names a function-valued struct field whose calls are declared pure.
+type pureField string
+
 func (vc *VC) calleeVal(fx *FuncCtx, fr *Frame, c *ssa.CallCommon) Val {
 	if c.IsInvoke() {
 		return nil
@@ -37,6 +40,32 @@ func (vc *VC) callValue(fx *FuncCtx, st *State, fv Val, args []Val, c *ssa.CallC
 		return vc.defaultCall(st, "dynamic call", nil, args, rt, true)
 	}
 	switch fn := f.Fn.(type) {
+	case pureField:
+		// a function-valued field declared pure: deterministic, no effect; result is an uninterpreted function of
+		// the function value and the arguments
+		vc.used["calls through "+string(fn)+" are pure and deterministic (declared purefunc)"] = true
+		ts := []*Term{f.Term}
+		for i, a := range args {
+			switch x := a.(type) {
+			case *Term:
+				ts = append(ts, x)
+			case *SliceV:
+				if sl, ok := under(c.Args[i].Type()).(*types.Slice); ok {
+					if w, ok := isUnsigned(sl.Elem()); ok && w == 8 {
+						ts = append(ts, vc.convert(st, x, c.Args[i].Type(), types.Typ[types.String]).(*Term))
+						continue
+					}
+				}
+				ts = append(ts, Fresh("purearg", IntSort))
+			default:
+				ts = append(ts, Fresh("purearg", IntSort))
+			}
+		}
+		if s := scalarSort(rt); s != nil {
+			return App("pure:"+string(fn), s, ts...)
+		}
+		fv, _ := vc.freshVal("pure", rt)
+		return fv
 	case *ssa.Builtin:
 		return vc.callBuiltin(fx, st, fn, args, c, rt, instr)
 	case *ssa.Function:
@@ -88,14 +117,29 @@ func (vc *VC) callFunction(fx *FuncCtx, st *State, fn *ssa.Function, args []Val,
 		vc.unmod[funcDisplayName(fn)+" (no contract, not inlined: default frame)"] = true
 		return vc.defaultCall(st, funcDisplayName(fn), fn, args, rt, true)
 	}
-	// external function without model
-	pure := isPurePkg(fn)
-	if !pure {
-		vc.unmod[name+" (external, default frame)"] = true
-	} else {
-		vc.used["external "+name+": result unconstrained, no effect on repository state"] = true
+	// external (library) function without model: it can reach repository state only through its arguments
+	vc.used["external "+name+": result unconstrained; modifies only memory reachable from its pointer, slice and map arguments (and what closures passed to it may write)"] = true
+	for _, a := range args {
+		if f, ok := a.(*FuncV); ok {
+			if cf, ok := f.Fn.(*ssa.Function); ok {
+				if ws := vc.writeSetOf(cf); ws != nil {
+					for _, p := range ws {
+						st.havocPrefix(p, "closure passed to "+name)
+						vc.noteHavoc(st, p)
+					}
+				} else {
+					vc.havocAll(st, "closure passed to "+name)
+				}
+			}
+		}
 	}
-	return vc.defaultCall(st, name, fn, args, rt, !pure)
+	return vc.defaultCall(st, name, fn, args, rt, false)
+}
+
+// library functions that write through interface-typed arguments
+var writesThroughIface = map[string]bool{
+	"json.Unmarshal": true, "sort.Sort": true, "sort.Stable": true, "sort.Slice": true, "sort.SliceStable": true, "binary.Read": true,
+	"fmt.Sscanf": true, "fmt.Sscan": true, "(*encoding/json.Decoder).Decode": true, "json.Decoder).Decode": true, "heap.Init": true, "heap.Push": true, "heap.Pop": true, "heap.Fix": true,
 }
 
 var purePkgs = map[string]bool{
@@ -204,8 +248,14 @@ func (vc *VC) defaultCall(st *State, name string, fn *ssa.Function, args []Val, 
 				vc.noteHavoc(st, p)
 			}
 		}
-	} else if fn != nil {
-		sig := fn.Signature
+	} else if fn != nil || vc.pendingSig != nil {
+		var sig *types.Signature
+		if fn != nil {
+			sig = fn.Signature
+		} else {
+			sig = vc.pendingSig
+		}
+		vc.pendingSig = nil
 		k := 0
 		if sig.Recv() != nil {
 			vc.havocArg(st, args[0], sig.Recv().Type(), name)
@@ -237,6 +287,18 @@ func shortName(s string) string {
 
 func (vc *VC) havocArg(st *State, a Val, t types.Type, why string) {
 	switch u := under(t).(type) {
+	case *types.Interface:
+		if iv, ok := a.(*IfaceV); ok && writesThroughIface[shortName(why)] {
+			if bt, ok := vc.boxedType[iv.Data]; ok {
+				if bv, ok := vc.boxed[iv.Data]; ok {
+					vc.havocArg(st, bv, bt, why)
+				} else {
+					vc.havocArg(st, iv.Data, bt, why)
+				}
+			} else {
+				vc.havocAll(st, why+" (writes through an interface of unknown dynamic type)")
+			}
+		}
 	case *types.Slice:
 		st.havocPrefix(elemKey(u.Elem()), why)
 		vc.noteHavoc(st, elemKey(u.Elem()))
@@ -311,12 +373,26 @@ func (vc *VC) callInvoke(fx *FuncCtx, st *State, c *ssa.CallCommon, recv Val, ar
 	if im, ok := invokeModels[name]; ok {
 		return im(vc, fx, st, full, rt)
 	}
-	if m.Pkg() != nil && purePkgs[m.Pkg().Path()] {
-		vc.used["interface method "+name+": result unconstrained, no effect on repository state"] = true
-		return vc.defaultCall(st, name, nil, nil, rt, false)
+	if m.Pkg() != nil && (purePkgs[m.Pkg().Path()] || !strings.HasPrefix(m.Pkg().Path(), repoModule) || opaqueIfacePkg(m.Pkg().Path())) {
+		// boundary interface (library, store, auth, push, media ...): no contract given. The callee cannot
+		// reach the caller's objects except through pointer-like arguments, which are havocked.
+		vc.used["interface method "+name+": result unconstrained; modifies only memory reachable from its pointer, slice and map arguments"] = true
+		vc.pendingSig = m.Type().(*types.Signature)
+		return vc.defaultCall(st, name, nil, full, rt, false)
 	}
 	vc.unmod["interface method "+name+" (no contract: everything havocked)"] = true
 	return vc.defaultCall(st, name, nil, full, rt, true)
+}
+
+// opaqueIfacePkg lists repository packages whose interfaces are the server's boundary to storage, authentication,
+// push, media and validation back ends.
+func opaqueIfacePkg(path string) bool {
+	for _, p := range []string{"/server/store", "/server/auth", "/server/push", "/server/media", "/server/validate", "/server/db", "/pbx"} {
+		if strings.HasPrefix(path, repoModule+p) {
+			return true
+		}
+	}
+	return false
 }
 
 func recvQual(m *types.Func) string {
